@@ -70,7 +70,8 @@ def _walk_guards(node, stop):
 def r2_r3(ctx):
     rc = require_func(ctx, "parser._reconstruct")
     sk = require_func(ctx, "parser._split_keyvals")
-    pool = [sk] + [g for lst in sk.nested.values() for g in lst]
+    from ..util import closure
+    pool = closure(ctx, sk)
     dec = []
     for f in pool:
         for c in calls_in(f.node):
@@ -102,9 +103,10 @@ def r2_r3(ctx):
         ctx.ob("R2", cex is None and n >= 1, "decoding applies to gff3 dialects only, unless ignore_url_escape_characters", node=c, func=f,
                sig="decode iff gff3 and not ignored" if cex is None and n >= 1 else "decode condition wrong at %s" % (cex,))
     # encode condition on the print side is decided semantically by the printer template (every value encoded iff gff3 and not ignored)
-    from .c07 import r_printer, r_decode_layer
+    from .c07 import r_printer, r_decode_layer, r_roundtrip
     r_printer(ctx, rule="R2")
     r_decode_layer(ctx, rule="R2")
+    r_roundtrip(ctx, rule="R2")
     # ---- R3 the encoder
     q = require_func(ctx, "parser.Quoter.__missing__")
     b = [p for p in q.params if p != "self"][0]
